@@ -3,7 +3,12 @@ package c05
 import (
 	"fmt"
 
+	metav1 "k8s.io/apimachinery/pkg/apis/meta/v1"
+	"k8s.io/apiserver/pkg/authentication/user"
+	"k8s.io/apiserver/pkg/authorization/authorizer"
+
 	proxyv1alpha1 "github.com/kubewharf/kubegateway/pkg/apis/proxy/v1alpha1"
+	"github.com/kubewharf/kubegateway/pkg/clusters"
 	"github.com/kubewharf/kubegateway/pkg/flowcontrols/flowcontrol"
 
 	"verifharness/vkit"
@@ -127,4 +132,78 @@ func other(name, near string) string {
 		return near
 	}
 	return hot
+}
+
+// A user schema may literally be named "system-default" (validation accepts any non-empty name), which is also the name
+// the gateway REPORTS for policies that name no schema (those are exempt). Reached through ClusterInfo.MatchAttributes,
+// like the dispatcher: with the user's schema exhausted the unnamed policy's requests are still all admitted, and they
+// never take one of the schema's slots.
+func defaultNameIsolation(r *vkit.R) {
+	const reserved = "system-default"
+	r.Parallel(6, 6, func(i int, _ *vkit.Rand) {
+		M := int32(1 + i%3)
+		name := fmt.Sprintf("c05defname%d", i)
+		ci := clusters.NewEmptyClusterInfo(name, nil, nil, "", nil)
+		uc := &proxyv1alpha1.UpstreamCluster{ObjectMeta: metav1.ObjectMeta{Name: name}}
+		rule := func(res string) []proxyv1alpha1.DispatchPolicyRule {
+			return []proxyv1alpha1.DispatchPolicyRule{{Verbs: []string{"*"}, APIGroups: []string{"*"}, Resources: []string{res}}}
+		}
+		p1 := proxyv1alpha1.DispatchPolicy{FlowControlSchemaName: reserved, Rules: rule("limited")}
+		p2 := proxyv1alpha1.DispatchPolicy{Rules: rule("unnamed")}
+		uc.Spec.DispatchPolicies = []proxyv1alpha1.DispatchPolicy{p1, p2}
+		if i%2 == 1 {
+			uc.Spec.DispatchPolicies = []proxyv1alpha1.DispatchPolicy{p2, p1}
+		}
+		uc.Spec.FlowControl.Schemas = []proxyv1alpha1.FlowControlSchema{mifSchema(reserved, M), mifSchema(filler, 1)}
+		if err := ci.Sync(uc); err != nil {
+			r.Inconclusive("ClusterInfo.Sync failed for the system-default case: " + err.Error())
+			return
+		}
+		defer func() {
+			o := uc.DeepCopy()
+			o.Spec.FlowControl = proxyv1alpha1.FlowControl{}
+			_ = ci.Sync(o)
+			ci.Stop()
+		}()
+		u := &user.DefaultInfo{Name: "u"}
+		h := &limHandle{via: "ClusterInfo.MatchAttributes.FlowControl", get: func(res string) flowcontrol.FlowControl {
+			p, err := ci.MatchAttributes(&authorizer.AttributesRecord{User: u, Verb: "get", Resource: res, ResourceRequest: true})
+			if err != nil {
+				panic("harness: no policy matches " + res)
+			}
+			return p.FlowControl()
+		}}
+		var trace []string
+		report := func(what, text string) {
+			r.Violation("C05/isolation/schema-named-system-default/"+what, text,
+				map[string]interface{}{"via": h.via, "limit": M, "policies": "P1: resource 'limited' -> schema 'system-default'; P2: resource 'unnamed' -> no schema", "trace": append([]string(nil), trace...)})
+		}
+		// 1. exhaust the user's schema
+		a := takeAll(h, "limited", int(M))
+		trace = append(trace, fmt.Sprintf("%d acquires under P1 (schema %q, limit %d) succeeded", len(a), reserved, M))
+		if len(a) != int(M) {
+			report("own-limit-wrong", fmt.Sprintf("schema %q with limit %d admitted %d sequential requests of its own policy", reserved, M, len(a)))
+		}
+		// 2. the policy without a schema is exempt whatever happens to that schema
+		const N = 10
+		b := takeAll(h, "unnamed", N-1) // up to N acquires
+		trace = append(trace, fmt.Sprintf("with it exhausted, %d of %d acquires under P2 (no schema) succeeded", len(b), N))
+		if len(b) < N {
+			report("unnamed-policy-refused", fmt.Sprintf("a policy that names no schema had request number %d refused while the user schema %q (limit %d) was exhausted", len(b)+1, reserved, M))
+		}
+		// 3. P2's traffic does not use P1's slots
+		releaseAllFC(a)
+		a = takeAll(h, "limited", int(M))
+		trace = append(trace, fmt.Sprintf("P1's requests finished; with %d of P2 in flight %d acquires under P1 succeeded (limit %d)", len(b), len(a), M))
+		if len(a) < int(M) {
+			report("unnamed-policy-consumes-slots", fmt.Sprintf("with nothing of its own policy in flight and %d requests of the schema-less policy in flight, schema %q admitted only %d of %d", len(b), reserved, len(a), M))
+		} else if len(a) > int(M) {
+			report("own-limit-wrong", fmt.Sprintf("schema %q with limit %d admitted %d sequential requests", reserved, M, len(a)))
+		}
+		releaseAllFC(a)
+		releaseAllFC(b)
+		r.Eval(1)
+		r.Count("default_name_isolation_cases", 1)
+		r.Distinct(vkit.Hash64("defname", fmt.Sprint(i)))
+	})
 }
